@@ -17,6 +17,8 @@ pub fn props_of(m: &Mismatch) -> &'static [&'static str] {
         (Class::Int, _) if listed => &["C04", "C14"],
         (Class::Int, _) if matches!(m.id.0, "mmsi2" | "offset2" | "increment2") => &["C04", "C14"],
         (Class::Int, _) if matches!(m.id.0, "dac" | "fid") || m.id.0.starts_with("payload.") => &["C04", "C15"],
+        // type 21 carries the assigned-mode indicator as a plain flag: C12 names it among the codes
+        (Class::Int, _) if m.id.0 == "assigned_mode" => &["C04", "C12"],
         (Class::Int, _) => &["C04"],
         (Class::Scaled, "presence") => &["C11"],
         (Class::Scaled, _) => &["C10"],
